@@ -77,7 +77,9 @@ def main():
             "%d changes kept under `seeded/` (each: `patch.diff`, `demo.py`, `meta.json`); every one was confirmed by me in a scratch worktree "
             "(patch applies, 308 tests pass, the demonstration fails with it and passes without it) before it was kept.  "
             "**%d of %d are caught by the quick tier of the property's own check** on the current machinery "
-            "(`python3 tools/seed.py run all quick`, results in `seeded/RESULTS.json`).\n\n%s\n"
+            "(`python3 tools/seed.py run all quick`, results in `seeded/RESULTS.json`).  The others: C01-16, C05-14 (caught by C06, which owns keyword-shaped "
+            "names), C02-4 (C10), C10-15 (C19, which owns the command line), C18-16 (C01 / C17), and C05-16, C17-12, which lie outside their property as stated "
+            "(7.1) and are not caught.  Four more changes no longer manifest on the repaired tree and are listed without a verdict.\n\n%s\n"
             "\n### 7.3 Own mutants (`mutants/specs.py`)\n\n"
             "%d (mutant, check) pairs; %d caught.  %d pairs belong to mutants that keep the 308 tests green, of which %d are caught; the others "
             "are kept because they exercise the monitors, but the suite would catch them too.  Pairs marked *not caught* with a "
